@@ -84,24 +84,18 @@ func c01Watchdog(ctx *Ctx) time.Duration {
 	return 10 * time.Second
 }
 
-// c01Timeout: the watchdog for one case; never below twice the CPU envelope of
-// its input size, so that "hang" and "within the linear envelope" cannot contradict.
-func c01Timeout(ctx *Ctx, c *c01Case) time.Duration {
-	wd := c01Watchdog(ctx)
-	if e := 2 * c01CPULimit(c.Spec.Size()); e > wd {
-		wd = e
-	}
-	return wd
-}
+// c01Timeout: the wall-clock watchdog of the first attempt (see c01RunCase).
+func c01Timeout(ctx *Ctx, c *c01Case) time.Duration { return c01Watchdog(ctx) }
 
-// c01Exec is RunPkglint plus a soft CPU-time limit (ulimit -S -t): a run that
-// is still going after cpuSec seconds of CPU receives SIGXCPU. That makes "does
-// not end" independent of the machine load, which the wall-clock watchdog is not.
+// c01Exec is RunPkglint plus a CPU-time limit (ulimit -t, soft = hard, because
+// the Go runtime ignores SIGXCPU): a run that is still going after cpuSec
+// seconds of CPU is killed by the kernel. That makes "does not end"
+// independent of the machine load, which the wall-clock watchdog is not.
 // Such a run is returned with TimedOut = true and Signal = "cpu-limit".
 func c01Exec(ctx *Ctx, cwd string, wall time.Duration, cpuSec int, args []string) RunResult {
 	c, cancel := context.WithTimeout(context.Background(), wall)
 	defer cancel()
-	shArgs := append([]string{"-c", `ulimit -S -t "$0" && exec "$@"`, fmt.Sprint(cpuSec), ctx.Pkglint}, args...)
+	shArgs := append([]string{"-c", `ulimit -t "$0" && exec "$@"`, fmt.Sprint(cpuSec), ctx.Pkglint}, args...)
 	cmd := exec.CommandContext(c, "/bin/sh", shArgs...)
 	cmd.Dir = cwd
 	cmd.Env = append(os.Environ(), "PKGSRCDIR=", "HOME="+cwd, "GOMAXPROCS=2", "GOMEMLIMIT=2GiB")
@@ -115,7 +109,7 @@ func c01Exec(ctx *Ctx, cwd string, wall time.Duration, cpuSec int, args []string
 		if ws, ok := cmd.ProcessState.Sys().(syscall.WaitStatus); ok && ws.Signaled() {
 			r.Signal = ws.Signal().String()
 			r.Exit = -1
-			if ws.Signal() == syscall.SIGXCPU {
+			if (ws.Signal() == syscall.SIGKILL && c.Err() == nil) || ws.Signal() == syscall.SIGXCPU {
 				r.Signal = "cpu-limit"
 				r.TimedOut = true
 			}
@@ -133,12 +127,12 @@ func c01Exec(ctx *Ctx, cwd string, wall time.Duration, cpuSec int, args []string
 	return r
 }
 
+// The CPU limit: ten times the linear envelope of the input size. A run between
+// one and ten envelopes that ends is a "time" finding, a run that reaches the
+// limit a "hang"; the wide gap keeps polynomial slowdowns from flipping between
+// the two.
 func c01CPUSeconds(size int) int {
-	s := int(2*c01CPULimit(size)/time.Second) + 1
-	if s < 4 {
-		s = 4
-	}
-	return s
+	return int(10*c01CPULimit(size)/time.Second) + 1
 }
 
 func c01CaseDir(ctx *Ctx, c *c01Case, prefix string) (root, cwd string) {
@@ -153,15 +147,20 @@ func c01CaseDir(ctx *Ctx, c *c01Case, prefix string) (root, cwd string) {
 }
 
 // c01RunCase materializes the tree in a fresh directory, runs the real binary
-// under the wall-clock watchdog and the CPU limit (twice the linear envelope
-// of the input size) and removes the tree. When only the wall clock expired
-// and the process had used less CPU than its envelope, the verdict would
-// depend on the machine load: the run is repeated with a 12 times longer watchdog.
+// under the wall-clock watchdog and the CPU limit and removes the tree. When
+// the wall clock expires first, the verdict would depend on the machine load:
+// the run is repeated with a watchdog of 30 wall seconds per CPU second of the
+// limit, so that it is the CPU limit that decides; only a process that does
+// not use its CPU (blocked) is declared hanging by the wall clock.
 func c01RunCase(ctx *Ctx, c *c01Case, wall time.Duration) RunResult {
-	size := c.Spec.Size()
-	r := c01RunCaseOnce(ctx, c, wall, c01CPUSeconds(size))
-	if r.TimedOut && r.Signal == "watchdog" && r.CPU < c01CPULimit(size) {
-		r = c01RunCaseOnce(ctx, c, 12*wall, c01CPUSeconds(size))
+	cpuSec := c01CPUSeconds(c.Spec.Size())
+	r := c01RunCaseOnce(ctx, c, wall, cpuSec)
+	if r.TimedOut && r.Signal == "watchdog" {
+		long := time.Duration(30*cpuSec) * time.Second
+		if r.CPU < 100*time.Millisecond { // apparently blocked: one more minute is enough to tell
+			long = 6 * wall
+		}
+		r = c01RunCaseOnce(ctx, c, long, cpuSec)
 	}
 	return r
 }
@@ -421,12 +420,13 @@ func c01MainStack(stderr string) []string {
 // hang / slowdown:
 //  1. "nested-modifier-reparse" when the (reduced) input nests expressions at
 //     least 12 deep and a stack shows >= 4 nested MkLexer.exprModifier frames;
-//  2. otherwise the innermost frame that is on the stack in all samples but at
-//     most one: the function that contains the loop / the whole slow computation.
+//  2. otherwise the source file of the innermost frame that is on the stack in
+//     all samples but at most one (the function that contains the loop / the
+//     whole slow computation), e.g. "mklexer.go".
 // For a run that ends after `cpu` of CPU time (time verdicts) 12 samples are
 // taken at evenly spaced CPU times (the program is deterministic, so the set
-// of stacks is nearly so); for a hang (cpu = 0) at 1.5 s, 2 s, 2.5 s, 3 s of CPU.
-func c01HangFamily(ctx *Ctx, c *c01Case, cpu time.Duration) (family string, stack []string) {
+// of stacks is nearly so); for a hang (cpu = 0) 8 samples between 1 s and 2.75 s of CPU.
+func c01HangFamily(ctx *Ctx, c *c01Case, cpu time.Duration, allowNested bool) (family string, stack []string) {
 	take := func(at []time.Duration) [][]string {
 		got := make([][]string, len(at))
 		var wg sync.WaitGroup
@@ -456,11 +456,14 @@ func c01HangFamily(ctx *Ctx, c *c01Case, cpu time.Duration) (family string, stac
 				maxRec = k
 			}
 		}
-		return maxRec >= 4 && c01MaxExprNesting(c.Spec) >= 12
+		return allowNested && maxRec >= 4 && c01MaxExprNesting(c.Spec) >= 12
 	}
 	var samples [][]string
 	if cpu > 0 {
 		var first, rest []time.Duration
+		if cpu > 8*time.Second { // the first 8 s must do
+			cpu = 8 * time.Second
+		}
 		for i := 0; i < 12; i++ {
 			t := time.Duration(float64(cpu) * (float64(i) + 0.5) / 12)
 			if i%4 == 1 {
@@ -475,7 +478,11 @@ func c01HangFamily(ctx *Ctx, c *c01Case, cpu time.Duration) (family string, stac
 		}
 		samples = append(samples, take(rest)...)
 	} else {
-		samples = take([]time.Duration{1500 * time.Millisecond, 2 * time.Second, 2500 * time.Millisecond, 3 * time.Second})
+		var at []time.Duration
+		for i := 0; i < 8; i++ {
+			at = append(at, time.Second+time.Duration(i)*250*time.Millisecond)
+		}
+		samples = take(at)
 		if len(samples) > 0 && nested(samples) {
 			return "nested-modifier-reparse", samples[0]
 		}
@@ -490,6 +497,11 @@ func c01HangFamily(ctx *Ctx, c *c01Case, cpu time.Duration) (family string, stac
 	// walk down from the outermost frame as long as one continuation is shared by `need` samples
 	alive := samples
 	family = "unknown"
+	defer func() {
+		// the key is the FILE of that function (function-level keys flip between a function and its
+		// caller when a phase takes about 1/12 of the time); the helper files are attributed to the caller
+		family = c01FamilyFile(family, samples[0])
+	}()
 	for depth := 0; ; depth++ {
 		cnt := map[string]int{}
 		for _, s := range alive {
@@ -516,6 +528,30 @@ func c01HangFamily(ctx *Ctx, c *c01Case, cpu time.Duration) (family string, stac
 		alive = next
 	}
 	return family, samples[0]
+}
+
+func c01FamilyFile(frame string, stack []string) string {
+	if frame == "unknown" {
+		return frame
+	}
+	file := func(f string) string { return strings.SplitN(f, ":", 2)[0] }
+	if !c01HelperFiles[file(frame)] {
+		return file(frame)
+	}
+	// the innermost caller of `frame` on the sample that is outside the helper files
+	at := -1
+	for i, f := range stack {
+		if f == frame {
+			at = i
+			break
+		}
+	}
+	for i := at - 1; i >= 0; i-- {
+		if !c01HelperFiles[file(stack[i])] {
+			return file(stack[i])
+		}
+	}
+	return file(frame)
 }
 
 // c01MaxExprNesting: the deepest nesting of ${ / $( in any non-base file.
